@@ -1,5 +1,6 @@
 use crate::fw::Ctx;
 
+pub mod c07;
 pub mod c12;
 pub mod c18;
 
@@ -10,6 +11,7 @@ pub struct Prop {
 }
 
 pub const PROPS: &[Prop] = &[
+    Prop { id: "C07", run: c07::run, replay: c07::replay },
     Prop { id: "C12", run: c12::run, replay: c12::replay },
     Prop { id: "C18", run: c18::run, replay: c18::replay },
 ];
